@@ -32,6 +32,17 @@ def handleParse (fs : List String) (verbose : Bool := false) : String :=
     s!"{encOutcome o} first={first} pos={s1.pos} fetched={s1.fetched} peeks={s1.peeks} nexts={s1.nexts} resets={s1.resets} assumed={s1.assumed}"
   | _ => "bad-request"
 
+/-- `parseg <minor> <rule id> <fuel> tok*` (`parsegv`: verbose): the same with the version gates of the IR resolved for the
+    effective `py_version` (3, minor) (C15) -/
+def handleParseGate (fs : List String) (verbose : Bool := false) : String :=
+  match fs with
+  | minor :: rid :: fuel :: toks =>
+    let w : Array RTok := (toks.map readRTok).toArray
+    let (o, s1, _, r1) := parse (gateProg (nat minor) Gen.prog) w (nat fuel) (nat rid) verbose
+    let first := match r1 with | .ok _ => "ok" | .fail _ => "fail" | .raised => "raised" | .undecided => "undecided" | .tokErr => "tokerr" | .outOfFuel => "fuel"
+    s!"{encOutcome o} first={first} pos={s1.pos} fetched={s1.fetched} peeks={s1.peeks} nexts={s1.nexts} resets={s1.resets} assumed={s1.assumed}"
+  | _ => "bad-request"
+
 /-- `parsep <rule id> <fuel> # <program> ## tok*` : run one rule of a program sent over the wire (first pass,
     `call_invalid_rules = False`) → `ok <end>` / `fail` / `raised` / `undecided` / `tokerr` / `fuel` -/
 def handleParseProg (fs : List String) : String :=
